@@ -22,7 +22,7 @@ RULE = (
     "Non-trivial = configuration with >=1 rule off and an input containing that rule's trigger; distinct by (conf id, source)."
 )
 ASSUMPTIONS = [
-    "enabled rules are read from get_active_rules(); that the reported rules are the applied ones is C11's business",
+    "a rule counts as enabled by the set semantics of the enable/disable calls in the history (per chain registering a rule of that name), starting from the preset's active rules",
     "attribute route compared for the options that have an attribute on OptionsDict (the ten core options)",
 ]
 
@@ -62,9 +62,31 @@ def build(hist):
     return md
 
 
-def producers_ok(md, toks, env):
+_preset_active = {}
+
+
+def switched_on(hist):
+    """rule activity by the SET SEMANTICS OF THE CALLS in the history (not by what the instance reports): per chain, the preset's
+    active rules, then every enable/disable step applied to each chain that registers a rule of that name"""
+    from markdown_it import MarkdownIt
+    p = hist["preset"]
+    if p not in _preset_active:
+        m = MarkdownIt(p)
+        _preset_active[p] = (m.get_active_rules(), m.get_all_rules())
+    act, allr = _preset_active[p]
+    on = {ch: set(v) for ch, v in act.items()}
+    for op, names in hist.get("steps", []):
+        names = [names] if isinstance(names, str) else names
+        for ch in on:
+            for n in names:
+                if n in allr[ch]:
+                    (on[ch].add if op == "enable" else on[ch].discard)(n)
+    return on
+
+
+def producers_ok(md, toks, env, act=None):
     """(a): returns list of (key, msg)"""
-    act = md.get_active_rules()
+    act = act or md.get_active_rules()
     blk, inl, inl2, core = set(act["block"]), set(act["inline"]), set(act["inline2"]), set(act["core"])
     html = bool(md.options.get("html"))
     linkify_on = bool(md.options.get("linkify"))
@@ -157,10 +179,10 @@ def eval_case(ctx, case, count):
         md = build(case["hist"])
         env = {}
         toks = md.parse(src, env)
-        errs = producers_ok(md, toks, env)
+        act = switched_on(case["hist"])
+        errs = producers_ok(md, toks, env, act)
         if count:
             ctx.count("a.streams")
-            act = md.get_active_rules()
             on = set(act["block"]) | set(act["inline"])
             hit = False
             for r, rx in TRIGGERS.items():
@@ -292,7 +314,8 @@ def rand_hist(rng, preset=None):
     if opts:
         hist["options"] = opts
     k = rng.choice([0, 1, 2, 3, 5, 8, 12])
-    names = rng.sample(OPTIONAL, min(k, len(OPTIONAL)))
+    pool = OPTIONAL + (["linkify", "replacements", "smartquotes"] if hist.get("stub_linkify") or rng.random() < 0.3 else [])
+    names = rng.sample(pool, min(k, len(pool)))
     pending = {"enable": [], "disable": []}
     for nme in names:
         op = rng.choice(["enable", "disable"])
